@@ -237,7 +237,7 @@ def x_mutant(draw):
 @st.composite
 def x_extreme(draw):
     k = draw(st.sampled_from(["blocks", "parens", "literals", "locals", "args", "functions", "globals", "switch", "strswitch", "longline", "macro_expand",
-                              "macro_args", "chain", "ifnest", "biglines", "biglines", "include_big", "include_big", "strings", "bigarray", "elseif", "ternary", "bigstring", "classes", "nested_literal_locals", "globalinit", "globalinit", "longident", "longident"]))
+                              "macro_args", "chain", "ifnest", "biglines", "biglines", "include_big", "include_big", "strings", "bigarray", "elseif", "ternary", "bigstring", "classes", "nested_literal_locals", "globalinit", "globalinit", "longident", "longident", "manystrings", "manyfuncs", "nulstrings", "nulstrings"]))
     n = draw(st.sampled_from([1, 5, 9, 10, 11, 24, 25, 26, 30, 50, 64, 100, 250, 255, 256, 257, 500, 1000]))
     if k == "include_big":
         # text in front of and behind an #include of a file larger than a read chunk: the lexer has to move the includer's unread text
@@ -312,6 +312,27 @@ def x_extreme(draw):
         return "#if 1\n" * n + "int f() { return 1; }\n" + "#endif\n" * close
     if k == "strings":
         return "string *f() { return ({ " + ", ".join('"s%d"' % i for i in range(n)) + " }); }\n"
+    if k == "nulstrings":
+        # adjacent string literals are joined on the lexer's scratchpad, which keeps a length byte per string: literals with a NUL in
+        # them (raw byte, "\\0", "\\x00"), of lengths whose sums straddle 255 / 256
+        parts = []
+        for _ in range(draw(st.integers(2, 6))):
+            ln = draw(st.sampled_from([0, 1, 5, 16, 60, 73, 100, 120, 180, 238, 239, 240, 250, 254]))
+            ch = draw(st.sampled_from("abcxyz"))
+            body = ch * ln
+            if draw(st.integers(0, 2)) == 0 and ln:
+                cut = draw(st.integers(0, ln))
+                body = body[:cut] + draw(st.sampled_from(["\\0", "\\x00", "\\000", "\x00"])) + body[cut:]
+            parts.append('"%s"' % body)
+        sep = draw(st.sampled_from([" ", "\n  ", " + "]))
+        return "string f() { return " + sep.join(parts) + "; }\nstring g() { return \"p\" \"q\" \"r\"; }\n"
+    if k == "manystrings":
+        # string numbers of a program are 16-bit signed: sources with just under / just over 32767 distinct string constants
+        m = draw(st.sampled_from([32700, 32750, 32800, 33000, 40000]))
+        return "mixed f() { return 0; }\n" + "".join("string *a%d = ({ %s });\n" % (j, ", ".join('"q%d_%d"' % (j, i) for i in range(50))) for j in range(m // 50))
+    if k == "manyfuncs":
+        m = draw(st.sampled_from([32760, 32766, 32767, 32768, 33000]))
+        return "".join("int f%d() { return %d; }\n" % (i, i) for i in range(m))
     if k == "longident":
         # identifiers of 200-1000 characters where the compiler has something to say about them: its messages are composed in fixed buffers
         I = draw(st.sampled_from(["v", "Q", "_"])) * draw(st.sampled_from([200, 230, 236, 250, 255, 256, 257, 300, 600, 1000]))
@@ -421,7 +442,9 @@ def cases(draw):
     from . import c03
     xs = draw(st.lists(x_any(), min_size=1, max_size=4))
     xs = [x[:65536] for x in xs]
-    return dict(xs=xs, y=draw(c03.programs()), load_parent_after=draw(st.booleans()))
+    # the valid program compiled after the X files sometimes ends without a final newline, in a comment or a directive: whatever the
+    # lexer's buffer still holds behind the end of that file must not become part of it
+    return dict(xs=xs, y=draw(c03.programs()), load_parent_after=draw(st.booleans()), tail=draw(st.sampled_from([0, 0, 0, 1, 2, 3, 4, 5])))
 
 
 def ntokens(x):
@@ -451,21 +474,35 @@ def summarise(res, base, n):
     return out
 
 
+Y_TAILS = ["", "// a comment on the last line, no newline behind it", "#define C02_TAIL 1", "#define C02_TAIL 1 // and a comment", "#if 0\nint never;\n#endif", "/* closed */ // open"]
+
+
 def evaluate_case(ctx, w, case):
     from . import c03
     yfiles, ynames = c03.render_program(case["y"])
-    w.write("t/c02y.c", yfiles["r"])
+    w.write("t/c02y.c", yfiles["r"] + Y_TAILS[case.get("tail", 0)])
     for i in range(4):
         w.remove("t/c02x%d.c" % i)
     # reference: P and Y in a fresh driver
     tail = tail_steps(w, yfiles, ynames)
     ref = w.run(tail)
-    if ref.timed_out or ref.crash():
+    if ref.timed_out:
         ctx.inconclusive["reference-run-failed"] += 1
         return None, None
+    rc = ref.crash()
+    if rc:
+        # the probe and the generated valid program alone, in a fresh driver: a memory error here is a finding like any other
+        return ("crash:" + rc[1][:70], "in the fresh driver (probe and Y only, Y ends with %r)\n%s" % (Y_TAILS[case.get("tail", 0)], rc[2][:3000])), None
     ref_sum = summarise(ref, 0, len(tail))
     if ref_sum[0].get("st") != "ok":
         return ("probe-does-not-compile", "fresh driver: %r %r" % (ref_sum[0], ref_sum[1])), None
+    if ref_sum[4].get("st") != "ok" and case.get("tail", 0):
+        # metamorphic: the same program with a newline at its end. (Y itself may be rejected: constant folding finds divisions by zero.)
+        w.write("t/c02y0.c", yfiles["r"])
+        r0 = w.run([["load", "t/c02y0.c"]])
+        if not r0.timed_out and not r0.crash() and (r0.step(0) or {}).get("st") == "ok":
+            return ("last-line-without-newline-changes-outcome", "fresh driver: Y compiles, Y + %r (no newline behind it) does not: %r %r" % (
+                Y_TAILS[case["tail"]], ref_sum[4], ref_sum[5])), None
     steps = []
     for i, x in enumerate(case["xs"]):
         if case.get("pretext"):
